@@ -56,8 +56,9 @@ theorem ops_atomic_release : atomicMove_release_leaked_internal = ["cas", "wadd"
 /-- `len_after_publishing` (`pLen`, `lenAfter32`): `i32::max(1, slot_id.overflowing_add(1).overflowing_sub(head) as i32)` -/
 theorem ops_atomic_len_after : atomicMove_len_after_publishing = ["max", "wadd", "wsub", "asI32"] := by decide
 
-/-- `available_elements_count` (`lLen`, `len32`) -/
-theorem ops_atomic_len : atomicMove_available_elements_count = ["wsub"] := by decide
+/-- `available_elements_count` (`lLen`/`lLenH`, `len32`): `tail.overflowing_sub(head)` — once in the verification build's two-load
+    block, once in the production expression -/
+theorem ops_atomic_len : atomicMove_available_elements_count = ["wsub", "wsub"] := by decide
 
 /-- `FullSyncMove::leak_slot_internal` (`pCheck`: `fsAdmit32`, `index32`) -/
 theorem ops_fs_leak_slot : fullSyncMove_leak_slot_internal = ["wsub", "mod"] := by decide
